@@ -105,6 +105,16 @@ def run(ctx):
     from ..shared import shared_container_rule as _shared_container_rule
 
     ctx.attempt(_shared_container_rule, ctx, "R13.9", scope=lambda f, _s=("EasyFEA.FEM._field", "EasyFEA.FEM._forms", "EasyFEA.FEM._linalg", "EasyFEA.Models._weakforms", "EasyFEA.Simulations._weakforms"): f.module.name.startswith(_s), min_instances=30)
+    from . import c12 as _c12
+
+    # a per-element coefficient written into a user form means the same as in the built-in operator (also when Ne == nPg)
+    ctx.attempt(_c12.coefficient_table_rule, ctx, "R13.12")
+    # a field on the right of a plain operand (`1 - u`, `k / u`, `A @ grad`): operands in the order written
+    ctx.attempt(_c12.reflected_operator_rule, ctx, "R13.13")
+    from . import c05 as _c05
+
+    # 'a weak-form simulation returns the same solution as the dedicated simulation', also in time: l(v) and add_volumeLoad weigh the same
+    ctx.attempt(_c05.load_equivalence_rule, ctx, "R13.14")
     repo = ctx.repo
     ctx.level = "other"
     ctx.explanation = (
